@@ -181,10 +181,12 @@ Ack(i, src, v, c) ==
 Next == \E i \in Slots :
           \/ Start(i)
           \/ \E x \in {"e1", "e2", "e3", "ei", "low", "ex"}, c \in BOOLEAN : Hello(i, x, c)
-          \/ \E src \in 0..3, acct \in Claimable \cup {"-"}, pf \in PfSrc \cup {<<"-", 0>>}, c \in BOOLEAN :
-               Auth(i, src, acct, pf, c)
-          \/ \E src \in 0..3, pf \in PfSrc \cup {<<"-", 0>>}, c \in BOOLEAN : Accept(i, src, pf, c)
-          \/ \E src \in 0..3, v \in {"t", "f", "eof"}, c \in BOOLEAN : Ack(i, src, v, c)
+          \/ \E src \in 1..3, c \in BOOLEAN : Auth(i, src, "-", <<"-", 0>>, c)
+          \/ \E acct \in Claimable, pf \in PfSrc : Auth(i, 0, acct, pf, FALSE)
+          \/ \E src \in 1..3, c \in BOOLEAN : Accept(i, src, <<"-", 0>>, c)
+          \/ \E pf \in PfSrc : Accept(i, 0, pf, FALSE)
+          \/ \E src \in 1..3, c \in BOOLEAN : Ack(i, src, "t", c)
+          \/ \E v \in {"t", "f", "eof"} : Ack(i, 0, v, FALSE)
 Spec == Init /\ [][Next]_vars
 
 -----------------------------------------------------------------------------
@@ -197,20 +199,20 @@ ReqDone(i) == IsReq(i) /\ sess[i].step = 5
 \* requester r and responder s ran against each other: same ephemeral pair
 SamePair(r, s) == sess[s].pe = OwnEph[r] /\ sess[r].pe = OwnEph[s]
 
-\* C06, responder side: a reported honest key was proved in this very session
+\* C06, responder side: a reported honest key was proved in this very session (a session its
+\* owner runs, towards this responder's account, with this ephemeral pair)
 RespAuth == \A s \in Slots : RspDone(s) =>
               \/ sess[s].pa \notin Honest
-              \/ \E r \in Slots : IsReq(r) /\ Owner(r) = sess[s].pa /\ sess[r].step >= 3 /\ SamePair(r, s)
+              \/ \E r \in Slots : /\ IsReq(r) /\ Owner(r) = sess[s].pa /\ Target(r) = Owner(s)
+                                    /\ sess[r].step >= 3 /\ SamePair(r, s)
 \* C06, requester side: success only against an endpoint holding sk(target)
 ReqAuth == \A r \in Slots : ReqDone(r) =>
               \/ Target(r) = "E"
               \/ \E s \in Slots : IsRsp(s) /\ Owner(s) = Target(r) /\ sess[s].step >= 4 /\ SamePair(r, s)
-\* stronger (not claimed by C06, holds for the protocol with the point check): agreement on
-\* the intended responder and on the requester identity
-Agreement == /\ \A s \in Slots : (RspDone(s) /\ sess[s].pa \in Honest) =>
-                   \E r \in Slots : IsReq(r) /\ Owner(r) = sess[s].pa /\ Target(r) = Owner(s) /\ SamePair(r, s)
-             /\ \A r \in Slots : (ReqDone(r) /\ Target(r) # "E") =>
-                   \E s \in Slots : IsRsp(s) /\ Owner(s) = Target(r) /\ sess[s].pa = Owner(r) /\ SamePair(r, s)
+\* stronger (not claimed by C06, holds for the protocol with the point check): the responder the
+\* requester succeeded against believes it talked to this requester
+Agreement == \A r \in Slots : (ReqDone(r) /\ Target(r) # "E") =>
+                \E s \in Slots : IsRsp(s) /\ Owner(s) = Target(r) /\ sess[s].pa = Owner(r) /\ SamePair(r, s)
 \* no honest session ever computes on the degenerate point when the check is on
 NoZero == CheckLowOrder => \A i \in Slots : sess[i].pe # "low"
 
